@@ -61,6 +61,7 @@ ClassesOf(k) ==
          Cls("dot",      FALSE, "reg"),      \* the registered name followed by a dot
          Cls("upper",    FALSE, "reg"),      \* ... in upper case
          Cls("nul",      FALSE, "reg"),      \* ... followed by a zero byte and more
+         Cls("comma",    FALSE, "reg"),      \* ... followed by a comma and another name (a list is not a name)
          Cls("other",    FALSE, "other") }   \* an unrelated name
     [] k = "attester" -> {
          Cls("good",    TRUE,  "good"),      \* client c1's request, its key, its blind
